@@ -125,6 +125,13 @@ class Runner:
         self.events.append(('handler', kind, ns, event, sid, list(args),
                             via, n))
         if n in self.faults:
+            if self.cfg.get('fault_exc') == 'cancelled' and \
+                    kind == 'disconnect' and self.d.is_async and \
+                    self.cfg.get('coroutines', True):
+                # a coroutine disconnect handler that ends in CancelledError
+                # (it awaited a task of the application that was cancelled):
+                # the library treats it as a handler that returned nothing
+                raise asyncio.CancelledError()
             raise Injected('injected fault at handler invocation %d' % n)
         if kind == 'disconnect' and self.disconnect_script:
             beh = self.disconnect_script.pop(0)
